@@ -40,6 +40,11 @@ CLAIMED = {
     note=TB + "Regular-expression matching is Python's re (the model receives the set of matching strings).",
     technique="Lean 4 proof (List.filter algebra) + model/implementation correspondence",
     design="7/C18"),
+  "C19": dict(
+    text="Lean 4 theorems over a model of the node-link encoding networkx uses when the graph is saved (adjacency in insertion order -> node list + link list -> adjacency): C19_decode_encode (same nodes; for every node the same out-edges with the same payload in the same order), C19_decode_no_extra, C19_roundtrip_n (any number of save/restore cycles, by induction), C19_link_count. Tied to CPGraph.save / restore_cpgraph by running 1-3 real save/restore cycles per generated analysis and comparing the restored adjacency (iteration order included) with the model's decode(encode .) and, by oracle, nodes, edges with weight/type/attribution, the node maps, the critical path, its edge and event sets, the breakdown and summary with the state that was saved; the path recomputed on the restored graph must weigh the same.",
+    note=TB + "Partial: pickle, the CSV text encoding, zip member naming and the fixed /tmp extraction directory are exercised by the real cycles, not modelled.",
+    technique="Lean 4 proof (list induction: filter of flatMap over distinct nodes) + model/implementation correspondence on real save/restore cycles",
+    design="7/C19"),
   "C08": dict(
     text="Lean 4 model of the whole graph construction (window clipping, node creation, the DFS enter/exit state machine over the C03 token order with its closure variables, the kernel loop with launch-delay / kernel-kernel / Stream Sync / Context Sync edges, the weight helper, edge attribution, networkx's edge replacement) that reproduces the implementation's edge set exactly on every generated trace. Theorems: C08_nodes_two_per_event, C08_edge_weight_rule (every edge weighs the time difference of its endpoints or 0; dependency and sync edges 0), C08_callstack_edges_forward (for any time-sorted token list the DFS emits only forward edges; invariant over the closure state) with sortToks_time_sorted, C08_forward_of_descs, C08_weights_nonneg (forward + weight rule => no negative weight), C08_kernel_edge_types (launch edge: start of the linked runtime call -> start of its kernel; kernel-kernel: end of the last kernel of the stream; sync: end of a stream's last kernel -> end of the waiting host call), C08_checkTopo_sound (a graph passing the rank certificate has no cycle). Per run, the proved checkers (topological certificate, weights, forward, types) are evaluated in Lean on the implementation's own graph, alongside full model/implementation equality and a Python oracle.",
     note=TB + "Partial: stage 1 only (traces without cudaEventRecord / cudaStreamWaitEvent / Event Sync records, which the model does not yet cover); forwardness of kernel-loop edges and acyclicity are certified per run by proved checkers rather than proved for all inputs; the queue-length series (C14) and the links (C02) are inputs.",
